@@ -76,6 +76,9 @@ def generate(seed, tier="quick", label="mlmc"):
     if r.random() < 0.04 and variant == "adaptive":
         sc["maximum_level"] = max(0, initial_level - r.choice([1, 2]))  # misconfiguration: initial above maximum
         sc["misconfigured"] = True
+    if sc["nproc"] != 1 and r.random() < 0.15:
+        # fault: a task of one of the run's map calls dies in its worker (each call hit with probability 1/k)
+        sc["env"]["task_fail_one_in"] = r.choice([3, 8])
     return sc
 
 
